@@ -35,8 +35,34 @@ def _rawdeflate(data):
     return c.compress(data) + c.flush()
 
 
+def _pattern(n):
+    # position-dependent bytes: an offset error of any size changes the content
+    return b''.join(b'%07d\n' % i for i in range(0, n, 8))[:n]
+
+
+def _noise(n):
+    out = bytearray()
+    x = 2463534242
+    while len(out) < n:
+        x ^= (x << 13) & 0xffffffff
+        x ^= x >> 17
+        x ^= (x << 5) & 0xffffffff
+        out.append(x & 0xff)
+    return bytes(out)
+
+
+# bodies longer than the client's 4096-byte read size (several iterations of every body-
+# reading loop); not part of BODIES: they are only used with a handful of delivery plans
+BIG_BODIES = ['big', 'biggz']
+
+
 def body_of(kind):
     """(wire body bytes, decoded bytes, content-encoding or None)"""
+    if kind == 'big':
+        return _pattern(9500), _pattern(9500), None
+    if kind == 'biggz':
+        raw = _noise(3000) + _pattern(3000) + _noise(3000)
+        return _gzip(raw), raw, 'gzip'
     if kind in BODY_BYTES:
         return BODY_BYTES[kind], BODY_BYTES[kind], None
     text = b'compress me, compress me, compress me'
